@@ -325,7 +325,7 @@ def get_units():
                        functions=[M.REQ[fc] + '.decode', M.REQ[fc] + '.execute', DEC + '.decode', DEC + '._helper']))
     q = 'pymodbus.file_message.WriteFileRecordRequest.decode'
     us.append(Unit('%s/terminates.fc21' % PROP, terminates_lemma(0x15, q), [PROP], functions=[q, DEC + '.decode', DEC + '._helper'],
-                   loops={(q, 0): LoopAnn('groups', lambda v, j: True, variant=lambda v: v.byte_count - v.count)}))
+                   loops={(q, 0): LoopAnn('groups', lambda v, j: True, variant='auto')}))
     triv = lambda name: LoopAnn(name, lambda v, j: True)
     us.append(Unit('%s/short.socket' % PROP, short_segment_lemma, [PROP], contracts=WRITE_CONTRACTS,
                    loops={('pymodbus.file_message.ReadFileRecordRequest.decode', 0): triv('groups20'), ('pymodbus.file_message.WriteFileRecordRequest.decode', 0): triv('groups21')},
